@@ -19,7 +19,16 @@ Local Open Scope nat_scope.
 (* ---- 1. buffer side ---- *)
 Definition cpp_cfg (subspan_clamped : bool) : cfg :=
   {| ov := fun _ n => n; up_front := true; little := false; al := fun _ => false; len_chk_storage := false; guarded := false;
-     ptr_clamp := subspan_clamped; bulk_on := false |}.
+     ptr_clamp := subspan_clamped; bulk_on := false; nested_strict := true; plan := all_first |}.
+
+(* the C++ SERIALIZER (lang/cpp/templates/serialization.j2): every store goes through a checked bitspan member (setBit / setUxx /
+   setIxx / setF* / setZeros / padAndMoveToAlignment: TOO_SMALL before anything is touched - scanned: tpl_cpp_ser_stores_checked and the
+   event lists of the members), there are no raw or bulk paths, a nested object gets out_buffer.subspan(bits_at, ceil(max/8)*8) which
+   REFUSES when the window does not fit, the vector length is compared with the DSDL capacity before the prefix is stored, and the
+   up-front test `capacity_bits < max` may be compiled out (upf).  `pl` says where the two template-level checks sit. *)
+Definition cpp_ser_cfg (upf : bool) (pl : chkplan) : cfg :=
+  {| ov := fun _ n => n; up_front := upf; little := false; al := fun _ => false; len_chk_storage := true; guarded := true;
+     ptr_clamp := true; bulk_on := false; nested_strict := true; plan := pl |}.
 
 (* the byte index (relative to data_.data()) of the pointer any_bitspan::subspan() hands to the nested span, as the arithmetic term
    SCANNED from the support header (newSize inlined); size_t subtraction never goes below zero in the recognised shapes *)
